@@ -3,12 +3,14 @@
 //! `ord::Index` filled from an in-process mock node, and talks HTTP to it.
 use hxlib::*;
 
+mod c18;
 mod c19;
 mod world;
 
 fn main() {
   let args = parse_args();
   match args.prop.as_str() {
+    "C18" => drive(&args, c18::gen, c18::run),
     "C19" => drive(&args, c19::gen, c19::run),
     p => {
       eprintln!("unknown property {p}");
